@@ -348,7 +348,7 @@ def main(tier):
         if rec.rc != 0:
             continue
         cand = [o["n"] for o in ops if fault.phase_of(o) in ("tmp-write", "tmp-close", "tmp-fsync", "rename", "tmp-create")]
-        for k in (cand if len(cand) <= 12 else rnd.sample(cand, 12 if tier == "quick" else 60)):
+        for k in (cand if len(cand) <= 12 else rnd.sample(cand, min(len(cand), 12 if tier == "quick" else 60))):
             hjobs.append((built, pi, proj, k, "kill-before"))
             hjobs.append((built, pi, proj, k, "kill-after"))
     for res in frame.pmap(history_work, hjobs, chunksize=4):
